@@ -212,7 +212,21 @@ func init() {
 	I["strconv.ParseUint"] = func(fr *frame, a []value) value {
 		s, ok := a[0].(string)
 		if !ok {
-			panic(engineErr("strconv.ParseUint(symbolic)"))
+			base, bits := int(asInt64(a[1])), int(asInt64(a[2]))
+			if it, isInt := intOfString(a[0]); isInt && base == 10 && (bits == 64 || bits == 0) {
+				// the decimal rendering of integer it: accepted iff 0 <= it < 2^64
+				if X.branch(mkBool("(and (>= "+it+" 0) (<= "+it+" 18446744073709551615))"), "parseuint-range") {
+					return tuple{symInt{it, types.Uint64}, iface{}}
+				}
+				return tuple{uint64(0), newErrorString(fr.i, "strconv.ParseUint: parsing symbolic: invalid syntax or out of range")}
+			}
+			// an arbitrary string: a syntax/range error, or some value
+			if X.choose("ParseUint(symbolic)", 2) == 0 {
+				return tuple{uint64(0), newErrorString(fr.i, "strconv.ParseUint: parsing symbolic: invalid syntax")}
+			}
+			v := X.fresh("parseuint", "Int")
+			X.addPC("(and (>= " + v + " 0) (<= " + v + " 18446744073709551615))")
+			return tuple{symInt{v, types.Uint64}, iface{}}
 		}
 		n, err := strconv.ParseUint(s, a[1].(int), a[2].(int))
 		return tuple{n, errRes(fr, err)}
@@ -285,6 +299,12 @@ func symStringFn(fr *frame, name string, a []value) value {
 	case "strings.TrimSuffix":
 		s, p := strTerm(a[0]), strTerm(a[1])
 		return symStr{"(ite (str.suffixof " + p + " " + s + ") (str.substr " + s + " 0 (- (str.len " + s + ") (str.len " + p + "))) " + s + ")"}
+	case "strings.ToUpper", "strings.ToLower":
+		// opaque: some string of the same length (over-approximation, see DESIGN.md)
+		v := X.fresh(strings.TrimPrefix(name, "strings."), "String")
+		X.addPC("(= (str.len " + v + ") (str.len " + strTerm(a[0]) + "))")
+		X.res.Notes = appendUniq(X.res.Notes, name+" of a symbolic string is an arbitrary string of the same length")
+		return symStr{v}
 	case "strings.ReplaceAll":
 		return symStr{"(str.replace_all " + strTerm(a[0]) + " " + strTerm(a[1]) + " " + strTerm(a[2]) + ")"}
 	case "strings.Count":
